@@ -23,6 +23,8 @@ VARIANTS = [
     V("model-construct-in-match-adapter", "src/soundevent/io/aoef/match.py", "        return data.Match(\n            uuid=obj.uuid,\n            source=source,", "        return data.Match.model_construct(\n            uuid=obj.uuid,\n            source=source,", "R04"),
     V("setattr-bypass-in-task", "src/soundevent/evaluation/tasks/clip_classification.py", "    return true_class, predicted_class_scores, evaluated\n", "    object.__setattr__(evaluated, \"score\", 2.0)\n    return true_class, predicted_class_scores, evaluated\n", "R04.3"),
     V("clip-validator-after-mode", D + "clips.py", "    @model_validator(mode=\"before\")\n    def _validate_times", "    @model_validator(mode=\"wrap\")\n    def _validate_times", "R04.2"),
+    V("clip-times-epsilon-tolerance", "src/soundevent/data/clips.py", 'if values["start_time"] > values["end_time"]:', 'if values["start_time"] > values["end_time"] + 1e-9:', "R04.2"),
+    V("clip-times-rounded", "src/soundevent/data/clips.py", 'if values["start_time"] > values["end_time"]:', 'if round(values["start_time"], 6) > round(values["end_time"], 6):', "R04.2"),
     # neutral
     V("N-clips-match-swapped-operands", D + "clip_evaluations.py", "if example.clip.uuid != prediction.clip.uuid:", "if prediction.clip.uuid != example.clip.uuid:", None),
     V("N-clip-times-lt-flipped", D + "clips.py", "if values[\"start_time\"] > values[\"end_time\"]:", "if values[\"end_time\"] < values[\"start_time\"]:", None),
